@@ -41,6 +41,10 @@ CLAIMED["C03"] = ("PKCE over the composed provider and the real MemoryStore: aut
 CLAIMED["C16"] = ("Device grant over the composed provider: device authorization, user decision (none / accept / reject), polls by a presenter with SYMBOLIC client id after a symbolic clock advance (0..20 min), code kinds (real, forged with stored signature, user code, unknown), replay after success, sweep; against the real MemoryStore and against a wrapper that follows the documented 'invalidated => return the request with ErrInvalidatedDeviceCode' contract: tokens only when accepted, same client, unexpired, first success; pending / denied / expired / wrong-client classes (overlaps accept either); replay never yields tokens and, with the contract store, kills the issued tokens; the store only ever receives signatures.", "6/C16", T_STATE)
 CLAIMED["C17"] = ("Pushed authorization requests over the composed provider: push variants (7) with symbolic state / scope, symbolic clock advance (0..10 min), then 2 (3) uses through NewAuthorizeRequest with request_uri in {returned, unknown with prefix, foreign prefix, none}, SYMBOLIC client_id and six conflicting symbolic query parameters, enforcement flag as a solver Boolean (thorough: second pusher, custom prefix): a use proceeds only for the pushing client, once, before expiry; the resulting request carries the pushed redirect URI, response type/mode, scope, state, audience whatever the query says; push with request_uri or without client authentication refused; enforcement refuses plain requests.", "6/C17", T_STATE)
 
+CLAIMED["C02"] = ("Authorization-code binding over the composed provider and the real MemoryStore: authorize (stored redirect_uri absent / sent / second registered / public client; symbolic granted subset, subject), one free redemption attempt with SYMBOLIC presenting client id, redirect_uri (<= 24 / 32 chars), smuggled scope and audience parameters and clock advance (0..20 min), then the rightful redemption: success => same client, redirect matches (or none stored), inside the lifetime, and both issued tokens introspect to exactly the granted scopes / audience / subject; refusal => store unchanged, foreign client / wrong redirect are invalid_grant, rightful redeem still succeeds.", "6/C02", T_STATE)
+CLAIMED["C05"] = ("Refresh step with symbolic original grant (scopes, subject), symbolic CURRENT registration of the presenting client (record replaced after issuance: scopes, audience, refresh_token grant), presenter owner/other, symbolic scope/audience request parameters, refresh-scope configuration [] / default / custom symbolic, the three scope strategies and two audience strategies (quick: one dimension free at a time; thorough: pairs): success => same client, grant type present, every granted scope and audience still allowed by the real strategies, refresh scope present; new tokens carry the original subject / scopes / audience. Issuance rule for code / password / device responses: refresh_token present <=> configured-scope rule and (code/device => client registered for refresh_token).", "6/C05", T_STATE)
+CLAIMED["C07"] = ("Expiry: every validator called directly with symbolic instants (HMAC access / refresh / authorize code, device and user codes, MapClaims exp/nbf/iat as int64 / float64 / json.Number, JWT claims and strategy, rfc7523 claims) against an integer specification of 'honoured until' (session expiry if set, else requested_at + lifespan, unlimited refresh = never; both verdicts accepted at the documented boundary); GetEffectiveLifespan for all grant x token-type pairs x client shapes with 12 symbolic overrides against an independent table; advertised vs honoured lifetimes through code, refresh, password, client_credentials (thorough: implicit, second refresh generation) flows with a symbolic clock advance probing introspection / refresh; code, device and PAR request_uri lifetimes.", "6/C07", T_PURE)
+
 NOT_YET = {}
 
 def main():
